@@ -73,6 +73,24 @@ def replay_known(ctx, res):
                 res.violation('the pinned witness of F18 behaves in a new way: %s instead of UnexpectedCharacters' % type(e).__name__, dict(w))
 
 
+def replay_f36(ctx, res):
+    from lark import Lark
+    from lark.exceptions import UnexpectedCharacters, UnexpectedInput
+    for f in ctx['known']:
+        if f['id'] == 'F36' and f['status'] == 'open':
+            w = f['witness']
+            try:
+                Lark(w['grammar'], parser='earley', lexer=w['lexer']).parse(w['text'])
+                res.violation('the pinned witness of F36 behaves in a new way: accepted', dict(w))
+            except UnexpectedCharacters as e:
+                if sorted(e.allowed) == w['reported_allowed']:
+                    res.known_hits.append(('F36', '%s: %r on %r reports allowed=%s at offset %d although no sentence of the grammar exists' % (f['what'], w['grammar'], w['text'], sorted(e.allowed), e.pos_in_stream)))
+                elif e.allowed:
+                    res.violation('the pinned witness of F36 behaves in a new way: allowed=%s' % sorted(e.allowed), dict(w))
+            except UnexpectedInput as e:
+                res.violation('the pinned witness of F36 behaves in a new way: %s instead of UnexpectedCharacters' % type(e).__name__, dict(w))
+
+
 def replay_f35(ctx, res):
     from lark import Lark
     from lark.exceptions import UnexpectedCharacters
@@ -92,6 +110,7 @@ def replay_f35(ctx, res):
 def run(ctx, res):
     replay_known(ctx, res)
     replay_f35(ctx, res)
+    replay_f36(ctx, res)
     check_earley(ctx, res)
     # LALR clauses: error at the first token the (model) driver cannot consume, accepts() = trial feeding, accepts within expected, no hang
     from props import c02
